@@ -197,7 +197,7 @@ func TestNumbering(t *testing.T) {
 			// number) is decided by the type the name denotes
 			FnAlias: rapid.IntRange(0, 2).Draw(rt, "fnAlias") == 0,
 			// unnamed definitions spelled with the empty quoted name (`@"" = ...`, `%"" = ...`)
-			EmptyQuoted: rapid.IntRange(0, 2).Draw(rt, "emptyQuoted") == 0}
+			EmptyQuoted: rapid.IntRange(0, 2).Draw(rt, "emptyQuoted") == 0, OctalLookalikes: rapid.Bool().Draw(rt, "octalLookalikes")}
 		hx.Eval(1)
 		if checkCase(rt, test, m, noise) {
 			u, nn, gk := shape(m)
